@@ -27,12 +27,24 @@ def arr(rows, width, dtype=None):
     return a.astype(dtype) if dtype and dtype != 'float64' else a
 
 
-def build(case):
+PLACEHOLDER = 7.25
+
+
+def build(case, edits=None):
+    """edits: None -> every table is built with its final values; a list -> tables that can be edited in
+    place are built with placeholder values and (array-returning thunk, final array) pairs are appended"""
     import femio
     from femio import FEMData, FEMAttribute, FEMElementalAttribute
     from femio.fem_attributes import FEMAttributes
     nd = case['nodes']
-    nodes = FEMAttribute('NODE', np.array(nd['ids'], dtype=np.int64), arr(nd['rows'], nd['width'], nd.get('dtype')),
+    def staged(final, get):
+        if edits is None:
+            return final
+        edits.append((get, final))
+        return np.full(final.shape, PLACEHOLDER).astype(final.dtype)
+
+    nodes = FEMAttribute('NODE', np.array(nd['ids'], dtype=np.int64),
+                         staged(arr(nd['rows'], nd['width'], nd.get('dtype')), lambda: fd.nodes.data),
                          silent=True)
     blocks = {}
     for b in case['elems']:
@@ -46,7 +58,8 @@ def build(case):
     for v in case['nodal']:
         ids = np.array(v['ids'], dtype=np.int64)
         if v['kind'] == '2d':
-            data = arr(v['rows'], v['width'], v.get('dtype'))
+            data = staged(arr(v['rows'], v['width'], v.get('dtype')),
+                          lambda name=v['name']: fd.nodal_data[name].data)
         elif v['kind'] == '1d':
             data = np.array([fl(r[0]) for r in v['rows']], dtype=np.float64)
         else:  # '3d': (n, w, 2), not a time series of the node count
@@ -58,6 +71,11 @@ def build(case):
             ids = np.array(b['ids'], dtype=np.int64)
             if v['kind'] == '2d':
                 data = arr(b['rows'], v['width'], v.get('dtype'))
+                if len(v['blocks']) == 1:
+                    # a single block shares its array with the variable's .data (a mixed-type
+                    # variable holds a sorted object-array copy made at construction: not edited)
+                    data = staged(data, lambda name=v['name'], t=b['type']:
+                                  fd.elemental_data[name][t if t in fd.elemental_data[name] else 'unknown'].data)
             elif v['kind'] == '1d':
                 data = np.array([fl(r[0]) for r in b['rows']], dtype=np.float64)
             else:
@@ -94,12 +112,21 @@ def run_case(case, work):
         p = d / 'mesh.inp'
         overwrite = bool(case.get('overwrite', True))
     try:
-        fd = build(case)
+        edits = [] if case.get('inplace') else None
+        fd = build(case, edits)
         out['mesh_elem_ids'] = [int(i) for i in fd.elements.ids]
     except Exception as e:  # the generator produced something femio cannot hold
         out['build_error'] = f'{type(e).__name__}: {e}'
         return out
     try:
+        if edits is not None:
+            if case['inplace'] == 'write-edit-write':
+                fd.write('ucd', str(p), overwrite=overwrite)
+                overwrite = True
+            for get, final in edits:
+                a = get()
+                assert a.shape == final.shape and a.dtype == final.dtype, (a.shape, final.shape, a.dtype, final.dtype)
+                a[...] = final
         fd.write('ucd', str(p), overwrite=overwrite)
         out['lines'] = p.read_text().split('\n')
         if out['lines'] and out['lines'][-1] == '':
